@@ -15,6 +15,11 @@ Lens     == 0..17
 Classes  == IF Thorough THEN {"zeros", "ones", "ramp", "random", "ascii", "high"} ELSE {"zeros", "random", "high"}
 
 EncCases == {[kind |-> "enc", key |-> key, len |-> len, cls |-> cls] : key \in Keys, len \in Lens, cls \in Classes}
+            \cup
+            \* every initial low byte in every tier (the key schedule never regenerates some low bytes,
+            \* so they are reachable only as the first key): one word, two words + tail, 17 bytes
+            {[kind |-> "enc", key |-> <<hi, 256 * 171 + lo>>, len |-> len, cls |-> "random"] :
+                 hi \in {43981}, lo \in 0..255, len \in {3, 4, 9, 17}}
 
 Fixed == { [kind |-> "table"], [kind |-> "fold"],
            [kind |-> "hash_exh", maxlen |-> 2, stride |-> IF Thorough THEN 1 ELSE 7],
